@@ -98,6 +98,19 @@ def seeded_for(prop: str) -> List[Dict[str, Any]]:
     return out
 
 
+def refactorings() -> List[Dict[str, Any]]:
+    """behaviour-preserving refactorings written by independent sub-agents (each verified against the suite and a
+    behaviour trace): every check must stay silent on each of them"""
+    base = os.path.join(os.path.dirname(os.path.dirname(os.path.abspath(__file__))), "refactorings")
+    out = []
+    if os.path.isdir(base):
+        for name in sorted(os.listdir(base)):
+            patch = os.path.join(base, name, "patch.diff")
+            if os.path.isfile(patch):
+                out.append({"name": f"refactoring/{name}", "expect": None, "patch": patch})
+    return out
+
+
 def _patched_sources(repo: str, patch: str) -> Optional[Dict[str, Tuple[str, str, bool]]]:
     """apply a patch file to a scratch copy of the package (removed at once) and read the sources back"""
     import shutil
@@ -116,7 +129,7 @@ def _patched_sources(repo: str, patch: str) -> Optional[Dict[str, Tuple[str, str
 
 
 def selftest(prop: str, repo: str, seed: int, rep: Report) -> None:
-    vs = load_variants(prop) + seeded_for(prop)
+    vs = load_variants(prop) + seeded_for(prop) + refactorings()
     rnd = random.Random(seed)
     rnd.shuffle(vs)
     if len(vs) > 200:
@@ -145,7 +158,7 @@ def main() -> int:
     prop = sys.argv[1].upper()
     pat = sys.argv[2] if len(sys.argv) > 2 else ""
     repo = os.environ.get("VERIF_REPO", "/repo")
-    vs = [v for v in load_variants(prop) + seeded_for(prop) if pat in v["name"]]
+    vs = [v for v in load_variants(prop) + seeded_for(prop) + refactorings() if pat in v["name"]]
     with ProcessPoolExecutor(max_workers=min(16, max(1, len(vs)))) as ex:
         res = list(ex.map(_run_one, [(prop, repo, 0, v) for v in vs]))
     bad = 0
